@@ -189,7 +189,8 @@ def tlc(module, cfg=None, outname=None, workdir=None, workers=1, env=None, timeo
     if completed and not any("Error:" in l for l in err_lines):
         res.ok = True
         return res
-    tail = "".join(open(out, errors="replace").readlines()[-25:])
+    tail = "".join(l[:300] for l in open(out, errors="replace").readlines()[-400:]
+                   if not l.startswith('"') and not l.startswith("<<"))[-3000:]
     raise ToolError("TLC failed on %s (exit %s):\n%s" % (module, r.returncode, tail))
 
 
@@ -242,6 +243,8 @@ class Ctx:
         self.work = os.path.join(WORK, pid)
         shutil.rmtree(self.work, ignore_errors=True)
         os.makedirs(self.work, exist_ok=True)
+        if not pid.endswith("-replay"):
+            shutil.rmtree(os.path.join(VERIF, "replays", pid), ignore_errors=True)
         self.cov = {"states": 0, "transitions": 0, "traces_validated_against_impl": 0,
                     "samples": [], "evaluations": 0, "distinct_nontrivial": 0,
                     "rule": "", "engines": [], "exhaustive": False}
